@@ -9,6 +9,7 @@ import (
 	"io"
 	"net"
 	"net/url"
+	"os"
 	"strings"
 	"sync"
 	"time"
@@ -42,6 +43,7 @@ type Link struct {
 	AllC2S    []byte // everything the client ever wrote successfully
 	ClientEnd bool   // client called Close
 	closeN    int
+	rdl, wdl  time.Time // deadlines set by the client
 
 	// fault plan (0 = never)
 	ReadErrAtOp  int
@@ -56,7 +58,7 @@ type Link struct {
 	Reads, WritesN int
 	FaultFired     bool // an injected read/write fault has fired
 	ClientSawEnd   bool // a Read returned EOF/error or a Write returned an error to the client
-	BytesIn        int // bytes delivered to the client
+	BytesIn        int  // bytes delivered to the client
 }
 
 var ErrClosed = errors.New("use of closed network connection")
@@ -71,11 +73,28 @@ func (a addr) String() string  { return string(a) }
 // Conn is the client's end.
 type Conn struct{ L *Link }
 
-func (c *Conn) LocalAddr() net.Addr                { return addr("client") }
-func (c *Conn) RemoteAddr() net.Addr               { return addr(c.L.Addr) }
-func (c *Conn) SetDeadline(t time.Time) error      { return nil }
-func (c *Conn) SetReadDeadline(t time.Time) error  { return nil }
-func (c *Conn) SetWriteDeadline(t time.Time) error { return nil }
+func (c *Conn) LocalAddr() net.Addr  { return addr("client") }
+func (c *Conn) RemoteAddr() net.Addr { return addr(c.L.Addr) }
+
+// Deadlines are instants of the simulated clock (time.Now inside the bubble);
+// the zero time means none, as for net.Conn.
+func (c *Conn) SetDeadline(t time.Time) error      { c.L.rdl, c.L.wdl = t, t; return nil }
+func (c *Conn) SetReadDeadline(t time.Time) error  { c.L.rdl = t; return nil }
+func (c *Conn) SetWriteDeadline(t time.Time) error { c.L.wdl = t; return nil }
+
+// blockUntil parks the calling task until pred holds or the deadline passes;
+// it reports false on a timeout.
+func blockUntil(site, what string, dl time.Time, pred func() bool) bool {
+	if dl.IsZero() {
+		simrt.Block(site, what, pred)
+		return true
+	}
+	d := time.Until(dl)
+	if d <= 0 {
+		return pred()
+	}
+	return simrt.BlockFor(site, what, d, pred)
+}
 
 func (c *Conn) Read(p []byte) (int, error) {
 	l := c.L
@@ -100,9 +119,13 @@ func (c *Conn) Read(p []byte) (int, error) {
 		return 0, io.EOF
 	}
 	if len(l.s2c) == 0 && !l.s2cEOF && l.rdErr == nil && !l.ClientEnd {
-		simrt.Block("simnet.Read", "socket read (no data from server)", func() bool {
+		if !blockUntil("simnet.Read", "socket read (no data from server)", l.rdl, func() bool {
 			return len(l.s2c) > 0 || l.s2cEOF || l.rdErr != nil || l.ClientEnd
-		})
+		}) {
+			l.S.Count("fault.read-deadline-exceeded")
+			l.S.Logf("net%d read#%d -> deadline exceeded", l.ID, l.Reads)
+			return 0, &net.OpError{Op: "read", Net: "sim", Err: os.ErrDeadlineExceeded}
+		}
 	}
 	if l.ClientEnd {
 		return 0, &net.OpError{Op: "read", Net: "sim", Err: ErrClosed}
@@ -173,20 +196,36 @@ func (c *Conn) Write(p []byte) (int, error) {
 		l.S.Logf("net%d write#%d -> injected error after %d bytes", l.ID, l.WritesN, n)
 		return n, &net.OpError{Op: "write", Net: "sim", Err: ErrWrite}
 	}
-	if l.Window > 0 && len(l.c2s) >= l.Window {
+	// like a socket buffer: bytes are accepted as far as the window has room,
+	// the call blocks for the rest, and a write deadline that passes meanwhile
+	// returns the count accepted so far
+	done := 0
+	for l.Window > 0 && len(l.c2s)+len(p)-done > l.Window {
+		if room := l.Window - len(l.c2s); room > 0 {
+			l.appendC2S(p[done : done+room])
+			done += room
+			if done > 0 && done < len(p) {
+				l.S.Count("probe.write-blocked-mid-buffer")
+			}
+			continue
+		}
 		l.S.Count("fault.write-backpressure")
-		simrt.Block("simnet.Write", "socket write (server not reading)", func() bool {
+		if !blockUntil("simnet.Write", "socket write (server not reading)", l.wdl, func() bool {
 			return len(l.c2s) < l.Window || l.ClientEnd || l.rdErr != nil
-		})
+		}) {
+			l.S.Count("fault.write-deadline-exceeded")
+			l.S.Logf("net%d write#%d -> deadline exceeded after %d of %d bytes", l.ID, l.WritesN, done, len(p))
+			return done, &net.OpError{Op: "write", Net: "sim", Err: os.ErrDeadlineExceeded}
+		}
 		if l.ClientEnd {
-			return 0, &net.OpError{Op: "write", Net: "sim", Err: ErrClosed}
+			return done, &net.OpError{Op: "write", Net: "sim", Err: ErrClosed}
 		}
 		if l.rdErr != nil {
 			l.ClientSawEnd = true
-			return 0, &net.OpError{Op: "write", Net: "sim", Err: ErrWrite}
+			return done, &net.OpError{Op: "write", Net: "sim", Err: ErrWrite}
 		}
 	}
-	l.appendC2S(p)
+	l.appendC2S(p[done:])
 	return len(p), nil
 }
 
